@@ -318,6 +318,8 @@ namespace vh
         }
         if (cfg().case_timeout)
             alarm(0);
+        if (src.exhausted > 0)
+            c.labels.push_back("byte-buffer-exhausted(zeros drawn)");
         if (count && !st.frozen)
         {
             st.evaluations++;
@@ -454,7 +456,11 @@ namespace vh
             auto result = rc::detail::checkTestable(
                 [&]()
                 {
-                    auto bytes = *rc::gen::scale(static_cast<double>(sc), rc::gen::arbitrary<std::vector<uint8_t>>());
+                    // bytes uniform over 0..255 at every size (rapidcheck's integers use fewer bits
+                    // at small sizes, which would skew every weighted choice towards its first
+                    // alternatives); the LENGTH of the buffer still grows with the size
+                    auto bytes = *rc::gen::scale(static_cast<double>(sc),
+                                                 rc::gen::container<std::vector<uint8_t>>(rc::gen::resize(rc::kNominalSize, rc::gen::arbitrary<uint8_t>())));
                     // bounded shrinking: once the budget is used up every further candidate is
                     // accepted as "passing", which ends the shrink search at the current minimum
                     if (st.frozen && wall() - first_fail_at > shrink_budget)
